@@ -32,7 +32,7 @@ TRUSTED = ['A1 float == real; A2 object arrays == float arrays',
 ASSUMPTIONS = ['grid points distinct (strict monotonicity of the property is stronger than needed)',
                'N >= 2*(n//2+m)+2 ("long enough for the stencil")']
 NOT_DECIDED = ['conditioning-scaled rounding']
-BOUNDED = []
+BOUNDED = ['grids-and-sample-types: 24 concrete grids (spacings 2**-30 .. 2**20, nearly equidistant, integer-typed, complex samples) executed with the real numpy -- not proved; the symbolic harness treats the grid as reals (A1) and cannot see dtype or tolerance effects']
 QUANTIFIED = 'grid length N (integer), all grid values X(j), all polynomial coefficients a_d, the interior index i: ' \
              'universally quantified; n, m enumerated over the property\'s range'
 
@@ -50,6 +50,7 @@ def enumerated(tier):
 def groups(tier):
     out = [('deriv[n=%d,m=%d]' % (n, m), ('deriv', n, m)) for n, m in grid(tier)]
     out.append(('guards', ('guards',)))
+    out.append(('grids-and-sample-types', ('grids',)))
     return out
 
 
@@ -263,7 +264,17 @@ def run_guards():
     return {}
 
 
+def run_grids():
+    from ndvc.concrete import fd_derivative_grid_cases
+    cnt, bad = fd_derivative_grid_cases(mods()['fb'].fd_derivative)
+    solve.fact('exact-on-polynomials-for-tiny/huge/nearly-equidistant-spacings,integer-typed-grids,complex-samples[%d concrete grids]' % cnt, not bad,
+               kind='bounded', note=str(bad[:2])[:400])
+    return {}
+
+
 def run_group(args):
+    if args[0] == 'grids':
+        return run_grids()
     if args[0] == 'deriv':
         return run_deriv(args[1], args[2])
     return run_guards()
@@ -271,6 +282,8 @@ def run_group(args):
 
 def replay_case(ob):
     import re
+    if ob['name'].startswith('grids-and-sample-types/'):
+        return dict(kind='C16.grids')
     mm = re.search(r'deriv\[n=(\d+),m=(\d+)\]', ob['name'])
     mdl = ob.get('model') or {}
     N = None
